@@ -2287,3 +2287,19 @@ func isConstInt(v ssa.Value, k int64) bool {
 	c, ok := v.(*ssa.Const)
 	return ok && c.Value != nil && c.Value.Kind() == constant.Int && c.Int64() == k
 }
+
+
+// timeOrder: c is a.Before(b) or a.After(b) on time.Time values; returns the operands as (earlier, later) when the
+// call yields true - the same comparison whichever side it is read from (b.After(a) for a.Before(b)).
+func timeOrder(c *ssa.Call) (earlier, later ssa.Value, ok bool) {
+	if len(c.Call.Args) != 2 {
+		return nil, nil, false
+	}
+	switch timeMethod(&c.Call) {
+	case "Before":
+		return c.Call.Args[0], c.Call.Args[1], true
+	case "After":
+		return c.Call.Args[1], c.Call.Args[0], true
+	}
+	return nil, nil, false
+}
